@@ -702,6 +702,9 @@ func (r *runner) finalChecks() {
 			r.addV(v)
 		}
 	}
+	if r.has("pit-reads") {
+		r.addV(checkPITReads(r)...)
+	}
 	if r.has("volume-reads") {
 		r.addV(checkVolumeReads(r)...)
 	}
